@@ -30,11 +30,13 @@ Proof.
     unfold Qfree, credit; rewrite ?Em, ?En; intuition auto.
 Qed.
 
+Definition acqpc (p : pc) : bool :=
+  match p with WLoad _ | SAdd _ _ | WFailLoad _ _ | WRet _ _ _ => true | _ => false end.
 Lemma tstep_acquire s t s' : tstep s t = Some s' -> holds_sp (pcof s t) = false -> holds_sp (pcof s' t) = true ->
-  match pcof s' t with WLoad _ | SAdd _ _ | WFailLoad _ _ | WRet _ _ _ => True | _ => False end.
+  acqpc (pcof s' t) = true.
 Proof.
-  intros H. tstep_cases H; apply ltb_lt in Hlt; norm; unfold pcof; rewrite ?Hpc; cbn [holds_sp pik_sp];
-    intros A B; try discriminate; try congruence; exact Logic.I.
+  intros H. tstep_cases H; apply ltb_lt in Hlt; norm; unfold pcof; rewrite ?Hpc; cbn [holds_sp pik_sp acqpc];
+    intros A B; try discriminate; try congruence; reflexivity.
 Qed.
 
 Lemma cinv_tstep d s u s' : 0 < d -> uinv d s -> tstep s u = Some s' -> sp_inv s' -> cinv d s'.
@@ -49,18 +51,18 @@ Proof.
     + intros Hl. apply B. destruct (holds_sp (pcof s' u)) eqn:Hh'; [|reflexivity].
       destruct Isp' as [S1 _]. pose proof (S1 u) as X. rewrite Hn in X. specialize (X Hu Hh'). congruence.
     + intros t Ht Hht. rewrite Hn in Ht. destruct (Nat.eq_dec t u) as [->|N]; [auto|].
-      rewrite Fr in Hht by auto. exfalso. apply N. eapply sp_excl; eauto.
+      rewrite Fr in Hht by auto. exfalso. apply N. eapply (sp_excl s); eauto.
   - specialize (TC2 eq_refl). destruct TC2 as (Em&En&Hq).
     assert (Hfree : splock s = None -> Qfree d s') by (intros Hl; eapply Qfree_mono; eauto).
     split.
     + intros Hl. apply Hfree. destruct (splock s) as [p|] eqn:Hsp; [|reflexivity]. exfalso.
-      destruct Isp as [S1 S2]. destruct (S2 _ eq_refl) as (h&->&Hh1&Hh2).
+      destruct Isp as [S1 S2]. destruct (S2 _ Hsp) as (h&->&Hh1&Hh2).
       assert (Nh : h <> u) by congruence.
       destruct Isp' as [S1' _]. pose proof (S1' h) as X. rewrite Hn, Fr in X by auto. specialize (X Hh1 Hh2). congruence.
     + intros t Ht Hht. rewrite Hn in Ht. destruct (Nat.eq_dec t u) as [->|N].
       * pose proof (tstep_acquire _ _ _ H Hh Hht) as K.
         assert (Hl : splock s = None). { destruct Tr as [[E _]|[(_&_&E&_)|(E&_)]]; congruence. }
-        specialize (Hfree Hl). destruct (pcof s' u); try contradiction; exact Hfree.
+        specialize (Hfree Hl). destruct (pcof s' u); cbn [acqpc] in K; try discriminate K; exact Hfree.
       * rewrite Fr in * by auto. eapply hinv_mono; eauto.
 Qed.
 
@@ -90,7 +92,7 @@ Proof.
       * destruct Hpc' as [E|E]; rewrite E in Ha; discriminate.
       * rewrite Hpc' in Ha. discriminate.
     + intros y. rewrite Esc. apply Us.
-    + eapply cinv_frame; eauto; [intros ->; congruence|].
+    + apply (cinv_frame d s s' Ic Hn Hl Em En); [intros E0; congruence|].
       intros t0 Ht0 Hh0. destruct (Nat.eq_dec t0 t) as [->|N]; [congruence|auto].
   - (* thread step *)
     simpl in H. destruct Il as (Ho&Ins&Iq&It).
@@ -106,28 +108,29 @@ Proof.
     split; [|split].
     + intros t0 a Ht0 Ha. rewrite Hn in Ht0. rewrite Hp in Ha. eauto.
     + intros y. rewrite Esc. apply Us.
-    + eapply cinv_frame; eauto. intros ->; congruence.
+    + apply (cinv_frame d s s' Ic Hn Hl Em En); [intros E0; congruence|intros t0 _ _; apply Hp].
   - destruct (sched_effect _ _ _ H Logic.I) as (Hn&Hp&Hl&Em&_&_&_&_&_&_&Eq). destruct (sched_summ _ _ _ H Logic.I) as (_&_&_&_&Esc&En&_).
     split; [|split].
     + intros t0 a Ht0 Ha. rewrite Hn in Ht0. rewrite Hp in Ha. eauto.
     + intros y. rewrite Esc. apply Us.
-    + eapply cinv_frame; eauto. intros ->; congruence.
+    + apply (cinv_frame d s s' Ic Hn Hl Em En); [intros E0; congruence|intros t0 _ _; apply Hp].
   - destruct (sched_effect _ _ _ H Logic.I) as (Hn&Hp&Hl&Em&_&_&_&_&_&_&Eq). destruct (sched_summ _ _ _ H Logic.I) as (_&_&_&_&Esc&En&_).
     split; [|split].
     + intros t0 a Ht0 Ha. rewrite Hn in Ht0. rewrite Hp in Ha. eauto.
     + intros y. rewrite Esc. apply Us.
-    + eapply cinv_frame; eauto. intros ->; congruence.
+    + apply (cinv_frame d s s' Ic Hn Hl Em En); [intros E0; congruence|intros t0 _ _; apply Hp].
   - (* vCPU step *)
     simpl in H. destruct (vstep_effect _ _ _ H) as (Hn&Hp&Hl&Em&_). destruct (vstep_summ _ _ _ H) as (Eq&_&_&_&_&Esc&En&_).
     split; [|split].
     + intros t0 a Ht0 Ha. rewrite Hn in Ht0. rewrite Hp in Ha. eauto.
     + intros y. rewrite Esc. apply Us.
-    + eapply cinv_frame; eauto. intros E. destruct Eq as [E2|(t&_&E2)]; rewrite E2, E; reflexivity.
+    + apply (cinv_frame d s s' Ic Hn Hl Em En); [|intros t0 _ _; apply Hp].
+      intros E. destruct Eq as [E2|(t&_&E2)]; rewrite E2, E; reflexivity.
   - destruct (sched_effect _ _ _ H Logic.I) as (Hn&Hp&Hl&Em&_&_&_&_&_&_&Eq). destruct (sched_summ _ _ _ H Logic.I) as (_&_&_&_&Esc&En&_).
     split; [|split].
     + intros t0 a Ht0 Ha. rewrite Hn in Ht0. rewrite Hp in Ha. eauto.
     + intros y. rewrite Esc. apply Us.
-    + eapply cinv_frame; eauto. intros ->; congruence.
+    + apply (cinv_frame d s s' Ic Hn Hl Em En); [intros E0; congruence|intros t0 _ _; apply Hp].
 Qed.
 
 Lemma uinv_init d c ths nv : uinv d (init c false ths nv).
